@@ -102,6 +102,7 @@ class Result:
         self.samples: list = []
         self.wall = 0.0
         self.exhausted = False     # frontier became empty before depth bound
+        self.state_histories: list[tuple] = [()]
 
     def coverage(self, model) -> dict:
         alpha = model.alphabet()
@@ -171,6 +172,7 @@ def bfs(model, depth: int, *, jobs: int | None = None, max_states: int = 10**7,
                             res.capped = True
                             continue
                         seen.add(key)
+                        res.state_histories.append(tuple(history) + (ev,))
                         if not term:
                             nxt.append(tuple(history) + (ev,))
                         if len(res.samples) < 6 and (len(seen) % 97 == 1
